@@ -711,6 +711,9 @@ func c11Judge(c *evlog.Case, l *evlog.Log, level string, n, total int, perms map
 		}
 	}
 	for k, cnt := range perms {
+		if total/c11Factorial(n) < 1000 {
+			break // too few draws per order for the normal band to be trustworthy; reachability and positions are checked above
+		}
 		if ok, z := c11Band(cnt, total, 1/float64(c11Factorial(n))); !ok {
 			c.Violation(fmt.Sprintf("C11|distribution|permutation-frequency-outside-band|%s|n=%d", level, n), fmt.Sprintf("order %s: %d of %d draws (%.1f sigma from uniform)", k, cnt, total, z), perms)
 			return
